@@ -4,6 +4,7 @@ import (
 	"encoding/hex"
 	"fmt"
 	"os"
+	"strings"
 	"testing"
 	"time"
 )
@@ -29,6 +30,53 @@ func TestVerif(t *testing.T) {
 		// print one generated scenario (debugging aid)
 		sc := GenScenario(os.Getenv("VERIF_PROP"), envU64("VERIF_SEED", 1), "quick")
 		sc.Save("/dev/stdout")
+		os.Exit(0)
+	case "detrun":
+		// determinism self-test: print one line per run, a pure function of (property, seed)
+		props := strings.Split(os.Getenv("VERIF_PROPS"), ",")
+		n := envInt("VERIF_RUNS", 40)
+		base := envU64("VERIF_SEED", 7)
+		for _, p := range props {
+			for i := 0; i < n; i++ {
+				seed := mixSeed(base, strSeed(p), uint64(i))
+				var w *World
+				var nops int
+				switch propTable[p].Engine {
+				case "history":
+					sc := GenScenario(p, seed, "quick")
+					nops = len(sc.Ops)
+					w = RunScenario(t, sc)
+				case "faultenum":
+					sc := GenScenario(p, seed, "quick")
+					sc.Engine = "faultenum"
+					if len(sc.Ops) > 12 {
+						sc.Ops = sc.Ops[:12]
+					}
+					sc.Extra = map[string]int{"fault_kind": i % 5, "fault_index": 1 + i%3}
+					nops = len(sc.Ops)
+					w = RunFaultScenario(t, sc)
+				case "backend":
+					sc := GenBackendScenario(seed, "quick")
+					nops = len(sc.Ops)
+					w = RunBackendScenario(t, sc)
+				case "threads":
+					sc := GenThreadScenario(seed, "quick")
+					nops = len(sc.Ops)
+					w = RunThreadScenario(t, sc)
+				default:
+					continue
+				}
+				th := newHasher()
+				for _, v := range w.ch.Tape() {
+					th.Int(v)
+				}
+				sig := ""
+				if w.viol != nil {
+					sig = w.viol.Sig
+				}
+				fmt.Printf("DET %s %d ops=%d log=%x tape=%x steps=%d oracle=%d trunc=%q viol=%q\n", p, seed, nops, w.log.Sum(), th.Sum(), w.st.Steps, w.st.OracleEvals, w.st.Truncated, sig)
+			}
+		}
 		os.Exit(0)
 	case "goldengen":
 		if err := WriteGolden(os.Getenv("VERIF_GOLDEN_DIR"), os.Getenv("VERIF_GOLDEN_PROVENANCE")); err != nil {
